@@ -404,6 +404,60 @@ def search_failing_input(ctx, broken):
                       {"broken": broken, "search_output": out[-2000:]}, found_input=False)
 
 
+STORED_LITERALS = [r'a\0b', r'a\x00b', r'\0zz', r'k\x00\x01\xfe7', r'ab\0', r'\0', r'abc', r'\n\t\"\\\xff', r'\x7f\x80', r'q\0\0r', r"it's"]
+
+
+def stored_literals(ctx):
+    """end to end: the bytes a string literal spells (Lit/LitSpec.decode, mirrored by spec_decode) are the bytes found in the
+    output after `s = "...";` and as a default value, in the gcc-built parser, for terminated and unterminated strings under the
+    in-struct and heap representations - interior NUL bytes included (the length counter says how many bytes count)"""
+    import cdrv, shutil
+    from concurrent.futures import ThreadPoolExecutor
+    lits = [(t, spec_decode([ord(c) for c in t])) for t in STORED_LITERALS]
+    lits = [(t, b) for t, b in lits if b is not None and len(b) <= 12]
+    jobs = []
+    for unterm in (False, True):
+        decl = "".join("out %sstr[16] d%d = \"%s\";\nout %sstr[16] a%d;\n" % ("unterminated " if unterm else "", i, t, "unterminated " if unterm else "", i) for i, (t, _) in enumerate(lits))
+        body = "".join("    a%d = \"%s\";\n" % (i, t) for i, (t, _) in enumerate(lits))
+        src = decl + "parser {\n" + body + "    \"x\";\n}\n"
+        for fl in (["-O1"], ["-O2", "-fallocate-str-space-dynamic"], ["-O0", "-fallocate-str-space-dynamic-on-demand", "-fstrings-as-u8"]):
+            jobs.append((len(jobs), src, fl, unterm, cdrv.prepare_compile(src, fl, max_states=400)))
+
+    def job(a):
+        idx, src, fl, unterm, P0 = a
+        wd = os.path.join(common.BUILD, "c15", "s%02d" % idx)
+        out = {"flags": fl, "unterm": unterm, "src": src, "bad": [], "checked": 0, "skip": None}
+        P = cdrv.prepare_build(P0, wd)
+        if not P["ok"]:
+            out["skip"] = str(P.get("why"))[:200]; return out
+        try:
+            rc, lines, err = cdrv.run_c(P["wd"], P["cp"].init_vals() + "\nrun 1 1 120 0\n")
+            last = [l for l in lines if "|" in l][-1]
+            fields = last.split("|")[1].strip().split(",")
+            names = [o["name"] for o in P["m"]["outs"]]
+            for name, f in zip(names, fields):
+                want = dict(("d%d" % i, b) for i, (_, b) in enumerate(lits)); want.update(("a%d" % i, b) for i, (_, b) in enumerate(lits))
+                n, hx = f.split(":")[0], f.split(":")[1]
+                got = [int(hx[k:k + 2], 16) for k in range(0, len(hx), 2)]
+                out["checked"] += 1
+                if int(n) != len(want[name]) or got != list(want[name]):
+                    out["bad"].append({"output": name, "literal": lits[int(name[1:])][0], "expected": list(want[name]), "stored": got, "length_counter": int(n)})
+        except Exception as e:
+            out["skip"] = repr(e)[:200]
+        finally:
+            shutil.rmtree(wd, ignore_errors=True)
+        return out
+
+    with ThreadPoolExecutor(max_workers=common.NCPU) as ex:
+        res = list(ex.map(job, jobs))
+    for o in res:
+        for b in o["bad"][:2]:
+            ctx.violation("stored-literal:%s:%s:%s" % (b["literal"], "unterminated" if o["unterm"] else "terminated", " ".join(o["flags"])),
+                          "the string literal \"%s\" spells the bytes %s but the output %s holds %s (length counter %d) in the gcc-built parser" % (b["literal"], b["expected"], b["output"], b["stored"], b["length_counter"]),
+                          {"program": o["src"], "flags": o["flags"], "input": [120], "detail": b, "broken": "correspondence stored bytes vs LitSpec.decode"})
+    ctx.coverage["stored_literal_checks"] = {"outputs_compared": sum(o["checked"] for o in res), "binaries": sum(1 for o in res if not o["skip"]), "skipped": [o["skip"] for o in res if o["skip"]][:2]}
+
+
 def run(ctx):
     ctx.obligations = len(re.findall(r"^Print Assumptions", open(os.path.join(COQ, "Props", "C15.v")).read(), re.M))
     err = regenerate(ctx)
@@ -449,6 +503,8 @@ def run(ctx):
         ctx.violation("forbidden-vernacular", "forbidden vernacular in the development: %s" % hits[:3], {"hits": hits}, found_input=False)
     # 2. correspondence of the PyLite reading with CPython
     pylite_correspondence(ctx)
+    # 2a. the bytes that end up in an output
+    stored_literals(ctx)
     ctx.coverage["checker_cmd"] = "make -C coq Lit/LitProps.vo && coqc -Q coq NV coq/Props/C15.v (Print Assumptions under every theorem)"
     ctx.coverage["theorems"] = ["c15_string_literal_denotes", "c15_string_literal_wellformed", "c15_char_const_plain", "c15_char_const_escape",
                                 "c15_int_decimal", "c15_int_hex", "c15_int_bin", "c15_casei_set", "c15_emit_roundtrip", "c15_emit_roundtrip_str"]
